@@ -39,7 +39,7 @@ CONSTANTS Families,   \* subset of {"lines", "strings", "records", "guess"}
 
 AlphaQuick == {"a", "t", "1", ".", "e", " ", ";", "'", "{", "}", "\""}
 AlphaDeep  == {"a", "T", "1", ".", "e", "+", " ", ";", "'", "{", "}", "=", "\"", ":", "\t"}
-AlphaLong  == {"t", "1", ".", "e", " ", ";", "'", "{", "}"}
+AlphaLong  == {"t", "1", ".", "e", " ", ";", "'", "{", "}", "\"", "a"}
 
 ---------------------------------------------------------------------------
 (* the table: one `key=value` text and its reading.  pad: blanks may surround the value without changing it *)
